@@ -90,6 +90,27 @@ func c04Scenarios(tier string) []*Scenario {
 				out = append(out, sc)
 			}
 		}
+		// the handlers sit behind a middleware that bounds every request (the request context already has a
+		// deadline, far beyond the caller's): the caller's deadline still reaches the handler
+		if tr == "http" {
+			for _, c := range []string{"deadline", "cancel"} {
+				for _, rpc := range []RPC{
+					{Kind: "unary", Client: []string{"I"}, Handler: []string{"dec", "w", "ret:ctx"}},
+					{Kind: "ss", Client: []string{"S0", "C", "R*"}, Handler: []string{"r", "w", "ret:ctx"}},
+					{Kind: "cs", Client: []string{"S0", "S1", "C", "R*"}, Handler: []string{"r", "w", "ret:ctx"}},
+					{Kind: "bd", Client: []string{"S0", "R*"}, Handler: []string{"r", "w", "ret:ctx"}},
+				} {
+					if c == "cancel" && (rpc.Kind == "cs" || rpc.Kind == "bd") {
+						// (an explicit cancel with part of the request unread is the recorded finding of 11.4 whatever
+						// the request context looks like; the deadline variants are what this dimension is about)
+						continue
+					}
+					sc := sc1("C04", c+"|srvdl|"+rpcName(rpc), tr, c, rpc)
+					sc.Opts = "srvdl"
+					out = append(out, sc)
+				}
+			}
+		}
 		// Header() parked or issued around the cancellation
 		for _, c := range []string{"cancel", "deadline"} {
 			out = append(out, sc1("C04", c+"|"+rpcName(RPC{Kind: "ss", Client: []string{"S0", "C", "H", "R*", "H"}, Handler: []string{"r", "w", "ret:ctx"}}), tr, c,
